@@ -764,6 +764,134 @@ fn check_semantic(rep: &Report, rng: &mut Rng, core: Option<usize>) {
     }
 }
 
+/// (e) the line lookup itself (LexerHelper::get_line, which every cited line number and line text goes through) is a
+/// function of the position alone: sequences of lookups in hostile orders on one helper -- descending, alternating
+/// between a line and the newline that ends the line before it, repeated, random -- each compared with an independent
+/// computation. Anything the helper remembers between lookups shows here.
+fn lookup_histories(rep: &Report, rng: &mut Rng, core: Option<usize>) {
+    use emulator_8086_lib::LexerHelper;
+    let nlines = rng.below(14);
+    let mut text = String::new();
+    let eol = if rng.chance(1, 4) { "\r\n" } else { "\n" };
+    for li in 0..nlines {
+        let width = *rng.pick(&[1usize, 4, 12, 40]);
+        for _ in 0..rng.below(width) {
+            text.push_str(*rng.pick(&["a", "}", " ", "mov ax,1", "\u{e9}", "\u{20ac}", "\t", ";", "x:"]));
+        }
+        if li + 1 < nlines || rng.chance(2, 3) {
+            text.push_str(eol);
+        }
+    }
+    let nls: Vec<usize> = text.bytes().enumerate().filter(|(_, b)| *b == b'\n').map(|(i, _)| i).collect();
+    let len = text.len();
+    let model = |pos: usize| -> (usize, usize, usize) {
+        let line = nls.partition_point(|n| *n < pos);
+        let start = if line == 0 { 0 } else { nls[line - 1] + 1 };
+        let end = if line < nls.len() { nls[line] } else { len };
+        (line, start, end.max(start))
+    };
+    // positions of interest: every newline and its neighbours, line starts, the ends of the text
+    let mut poi: Vec<usize> = vec![0, len, len.saturating_sub(1)];
+    for n in nls.iter() {
+        poi.extend_from_slice(&[n.saturating_sub(1), *n, (*n + 1).min(len), (*n + 2).min(len)]);
+    }
+    let lh = LexerHelper::new(&text);
+    let steps = 60;
+    let order = rng.below(5);
+    let mut seq: Vec<usize> = Vec::new();
+    for k in 0..steps {
+        let pos = match order {
+            // random positions of interest
+            0 => *rng.pick(&poi),
+            // descending through the text
+            1 => len - (len * k / steps).min(len),
+            // a line, then the newline ending the line before it (and back)
+            2 if !nls.is_empty() => {
+                let n = nls[rng.below(nls.len())];
+                if k % 2 == 0 { (n + 1 + rng.below(3)).min(len) } else { *seq.last().map(|last| nls.iter().rev().find(|x| **x < *last).unwrap_or(&n)).unwrap_or(&n) }
+            }
+            // the same position repeated, then a neighbour
+            3 => { if k % 3 != 2 { seq.last().copied().unwrap_or(*rng.pick(&poi)) } else { *rng.pick(&poi) } }
+            _ => rng.below(len + 1),
+        };
+        seq.push(pos);
+    }
+    rep.eval(1);
+    rep.distinct_str(&format!("lookup|order{}|lines{}|{}", order, nlines.min(6), eol.len()));
+    for (k, pos) in seq.iter().enumerate() {
+        let got = lh.get_line(*pos);
+        let want = model(*pos);
+        rep.count("line lookups compared with the position-only model", 1);
+        if got != want {
+            rep.fail(Failure {
+                sig: format!("lookup:history:{}", if k == 0 { "first-lookup" } else if lh_fresh(&text, *pos) == want { "depends-on-earlier-lookups" } else { "wrong-line" }),
+                what: "C16: the line found for a source position differs from the line that contains the position".into(),
+                witness: format!("{{\"kind\": \"lookup-sequence\", \"text\": {}, \"positions\": {:?}, \"step\": {}, \"expected\": \"{:?}\", \"observed\": \"{:?}\"}}", json_str(&text), &seq[..=k], k, want, got),
+                core_item: core.map(|c| format!("{}|{}", c, k)),
+            });
+            return;
+        }
+    }
+}
+fn lh_fresh(text: &str, pos: usize) -> (usize, usize, usize) {
+    emulator_8086_lib::LexerHelper::new(text).get_line(pos)
+}
+
+/// (f) lookup order through the binary: the implied return of a procedure whose `}` ends its line is cited right
+/// after a line below it was cited (a jump from the line after the brace to a label just before it; a call, from the
+/// line after the brace, of a procedure whose body emits nothing), stepping and plain
+fn lookup_order_cli(rep: &Report, rng: &mut Rng, core: Option<usize>) {
+    let lead = rng.below(4);
+    let mut text = String::new();
+    for k in 0..lead {
+        match rng.below(3) {
+            0 => text.push('\n'),
+            1 => text.push_str("; note\n"),
+            _ => text.push_str(&format!("v{}: db 1\n", k)),
+        }
+    }
+    let shape = rng.below(2);
+    // expected cited lines, in order of the messages
+    let (expect, interpreted): (Vec<usize>, bool) = if shape == 0 {
+        text.push_str("def f {\nmov ax,bx\ntail:\n}\nstart: print flags\njmp tail\n");
+        // Output of line (start line), then the implied return without a call: the brace line
+        (vec![lead + 5, lead + 4], false)
+    } else {
+        text.push_str("def f {\nnop\n}\nstart: call f\nmov ax,bx\nprint reg\n");
+        (vec![lead + 4, lead + 3, lead + 5, lead + 6, lead + 6], true)
+    };
+    let stdin = b"n\n".repeat(20);
+    let out = run_cli(text.as_bytes(), &CliOpts { interpreted, stdin: &stdin, env: vec![("VERIF_NOMEM", "1")], ..Default::default() });
+    rep.eval(1);
+    if out.timed_out || out.flooded || !out.clean_exit() {
+        rep.inconclusive("lookup-order program did not complete");
+        return;
+    }
+    let p = parse_records(&out.stdout);
+    let plain = String::from_utf8_lossy(&p.plain).to_string();
+    // cited lines: the first integer after "line" / "at" of every message
+    let mut cited: Vec<usize> = Vec::new();
+    for piece in plain.split(|c| c == '\n').flat_map(|l| l.split(">>> ")) {
+        for key in ["About to execute line ", "Output of line ", "ret without corresponding call at "] {
+            if let Some(i) = piece.find(key) {
+                if let Some(n) = ints(&piece[i + key.len()..]).first() {
+                    cited.push(*n);
+                }
+            }
+        }
+    }
+    rep.distinct_str(&format!("lookup-order|{}|{}", shape, lead));
+    rep.count("messages checked", cited.len() as u64);
+    if cited != expect {
+        rep.fail(Failure {
+            sig: format!("cite:lookup-order:{}", if shape == 0 { "implied-ret-after-line-below" } else { "implied-ret-of-empty-procedure" }),
+            what: "C16: a message cites another line than the one that caused it when the line cited just before lies below it".into(),
+            witness: format!("{{\"kind\": \"cli\", \"interpreted_flag\": {}, \"source\": {}, \"stdin\": \"n\\n x20\", \"detail\": {}}}", interpreted, json_str(&text), json_str(&format!("cited lines {:?}, expected {:?}; output {:?}", cited, expect, plain))),
+            core_item: core.map(|k| format!("{}|{}", k, shape)),
+        });
+    }
+}
+
 pub fn run(rep: &Report) {
     let t = rep.thorough();
     let seed = rep.seed;
@@ -812,9 +940,20 @@ pub fn run(rep: &Report) {
         let mut rng = if core { Rng::new(0xC16E).fork(i as u64) } else { Rng::new(seed).fork(0xC16E_0000 + i as u64) };
         check_map_continued(rep, &mut rng, if core { Some(i) } else { None });
     });
+    par_for(if t { 200_000 } else { 6000 }, 32, |i| {
+        let core = i < 300;
+        let mut rng = if core { Rng::new(0xC16F).fork(i as u64) } else { Rng::new(seed).fork(0xC16F_0000 + i as u64) };
+        lookup_histories(rep, &mut rng, if core { Some(i) } else { None });
+    });
+    par_for(if t { 400 } else { 24 }, 1, |i| {
+        let core = i < 8;
+        let mut rng = if core { Rng::new(0xC170).fork(i as u64) } else { Rng::new(seed).fork(0xC170_0000 + i as u64) };
+        lookup_order_cli(rep, &mut rng, if core { Some(i) } else { None });
+    });
+    rep.floor("line lookups compared", rep.counter("line lookups compared with the position-only model"), 100_000);
     rep.floor("instructions whose source-map entry was compared", rep.counter("instructions whose source-map entry was compared"), 10_000);
     rep.floor("messages checked", rep.counter("messages checked"), 1000);
     rep.floor("diagnostics checked on the binary", rep.counter("diagnostics checked on the binary") + rep.counter("semantic diagnostics checked on the binary"), 400);
 }
 
-pub const RULE: &str = "(a) programs rendered with known positions (random case/radix/whitespace, blank lines, comment lines and trailing comments, several instructions per line, with/without final newline, LF or CR LF line ends): for every emitted instruction the source-map offset must lie on the generator-known line (the macro use line for macro-generated instructions incl. nested macros, the closing brace for an implied ret); (b) the same kind of program run through the binary (plain and -i): every 'Output of line', 'Int 3 at line', 'About to execute line', divide-error (direct, in a macro, in a procedure) and unsupported-AH message, located between hook records, located by position relative to hook records and prompt markers (never by wording), must contain the line number of the instruction whose record precedes it as an integer token before the quoted text, and the comment-stripped trimmed text of that line; (c) single-token corruptions (unexpected token / invalid character incl. non-ASCII) at first, last and random token positions of random programs, and 13 kinds of semantic defects at known lines (middle, last line with and without newline): the diagnostic's position (in process) must be on the token's line, and the binary's diagnostic must contain line number, column (0- or 1-based) and line text. Wording is never compared. Distinct = (message/diagnostic kind, origin, layout class, position class). Programs switch the trap flag on and off by themselves (stepping is taken from the TF bit of each hook record); scale variants: 260..65600 filler lines in front, indentation beyond column 255, more than 65536 instructions before the first message. Columns of semantic diagnostics (constant-range defects in three radices with varied spacing); a macro that substitutes a long memory argument 48 times in front of a nested use; (d) continued contexts: after 0-2 refused texts (six kinds, three inside expansions) on the same context, the instructions and the forward reference of the next text must map to their own lines.";
+pub const RULE: &str = "(a) programs rendered with known positions (random case/radix/whitespace, blank lines, comment lines and trailing comments, several instructions per line, with/without final newline, LF or CR LF line ends): for every emitted instruction the source-map offset must lie on the generator-known line (the macro use line for macro-generated instructions incl. nested macros, the closing brace for an implied ret); (b) the same kind of program run through the binary (plain and -i): every 'Output of line', 'Int 3 at line', 'About to execute line', divide-error (direct, in a macro, in a procedure) and unsupported-AH message, located between hook records, located by position relative to hook records and prompt markers (never by wording), must contain the line number of the instruction whose record precedes it as an integer token before the quoted text, and the comment-stripped trimmed text of that line; (c) single-token corruptions (unexpected token / invalid character incl. non-ASCII) at first, last and random token positions of random programs, and 13 kinds of semantic defects at known lines (middle, last line with and without newline): the diagnostic's position (in process) must be on the token's line, and the binary's diagnostic must contain line number, column (0- or 1-based) and line text. Wording is never compared. Distinct = (message/diagnostic kind, origin, layout class, position class). Programs switch the trap flag on and off by themselves (stepping is taken from the TF bit of each hook record); scale variants: 260..65600 filler lines in front, indentation beyond column 255, more than 65536 instructions before the first message. Columns of semantic diagnostics (constant-range defects in three radices with varied spacing); a macro that substitutes a long memory argument 48 times in front of a nested use; (d) continued contexts: after 0-2 refused texts (six kinds, three inside expansions) on the same context, the instructions and the forward reference of the next text must map to their own lines. (e) the line lookup itself (LexerHelper::get_line) as a function of the position alone: 6000 / 200000 sequences of 60 lookups on one helper in hostile orders (descending, a line then the newline ending the line before it, repeats, positions on and around every newline; LF / CR LF, multi-byte characters, with and without final newline), each compared with an independent computation. (f) lookup order through the binary: the implied return of a procedure whose brace ends its line cited right after a line below it (jump from the line after the brace to a label before it; call of a procedure whose body emits nothing, stepping).";
